@@ -263,12 +263,12 @@ func c05Matrix(r *Run) {
 				continue // 1 in 'abc' is a TypeError in both; uninteresting
 			}
 			if p.kind == "iterraises" && (cons.name == "in" || cons.name == "notin") {
-			// CPython <= 3.7 rewords whatever __iter__ raised into TypeError for the in operator (later versions only reword
-			// TypeError): version-dependent, fenced
-			r.Fenced("in-operator-rewords-iter-error")
-			continue
-		}
-		sw := fmt.Sprintf("c05.%s.%s.%s", cons.name, p.kind, p.mode)
+				// CPython <= 3.7 rewords whatever __iter__ raised into TypeError for the in operator (later versions only reword
+				// TypeError): version-dependent, fenced
+				r.Fenced("in-operator-rewords-iter-error")
+				continue
+			}
+			sw := fmt.Sprintf("c05.%s.%s.%s", cons.name, p.kind, p.mode)
 			if !r.SwitchOn(sw) {
 				r.On(sw)
 				continue
